@@ -2,7 +2,7 @@ CONSTANTS
   MaxN = 3
   NegLo = 2
   Hi = 3
-  Modes = {"psd", "sd"}
+  Modes = {"psd", "sd", "sh", "th"}
 INIT Init
 NEXT Next
 INVARIANT Agree
